@@ -138,7 +138,12 @@ def run(rep, tier, seed, replay_file=None):
         jobs.append(("mc", "ChanOp", cfg, dict(workers=W + (1 if big else 0), timeout=2400, heap="6g", coverage=cfg in COVERAGE)))
     for cfg, inv, what in ([] if skip_models else VARIANTS):
         jobs.append(("variant", "ChanOp", cfg, dict(workers=1, timeout=600, heap="2g")))
-    jobs.append(("gen", "ChanStep", "Step_edge.cfg", dict(workers=W, timeout=1200)))
+    if quick:
+        # Step_edge_q: at most 2 calls in flight; Step_edge_q2: 3 in flight on the plain methods (two parked receivers and one send ...)
+        jobs.append(("gen", "ChanStep", "Step_edge_q.cfg", dict(workers=W, timeout=1200)))
+        jobs.append(("gen", "ChanStep", "Step_edge_q2.cfg", dict(workers=1, timeout=1200)))
+    else:
+        jobs.append(("gen", "ChanStep", "Step_edge.cfg", dict(workers=W, timeout=1200)))
     if not quick:
         # (a simulation step of ChanStep evaluates the closure of every successor: too slow for the quick tier)
         jobs.append(("gen", "ChanStep", "Step_sim.cfg", dict(workers=1, simulate=dict(num=100), depth=20, seed=seed, timeout=1200)))
@@ -201,7 +206,7 @@ def _run(rep, tier, seed, quick, rng, binary, jobs, futs):
             probes_gen[cfg] = replay.dedupe(res[i].tagged.get("BEH", [])) if res[i].ok else None
 
     # ---- 2. model -> code: stepped channel schedules, allowed-set comparison
-    edge = gens["Step_edge.cfg"]
+    edge = gens["Step_edge.cfg"] if not quick else replay.dedupe(gens["Step_edge_q.cfg"] + gens["Step_edge_q2.cfg"])
     sample, nclasses = xl.stratified(edge, 1 if quick else 4, rng, xl.step_class)
     rep.cov["chan_edge_classes"] = nclasses
     rep.cov["chan_edge_behaviours_generated"] = len(edge)
